@@ -371,6 +371,16 @@ def build_packet(loaded, variant, pv, how="kwargs", rng=None):
         for k, v in vals.items():
             setattr(p, k, v)
         return p
+    if how == "inplace":
+        # like "attrs", but lists that default to [] are filled in place (p.items.append(x)) instead of being replaced
+        p = cls()
+        for k, v in vals.items():
+            cur = getattr(p, k, None)
+            if isinstance(v, list) and isinstance(cur, list) and not cur:
+                cur.extend(v)
+            else:
+                setattr(p, k, v)
+        return p
     keys = list(vals)
     first = {k: vals[k] for k in keys if (rng.random() < 0.5 if rng else hash(k) & 1)}
     p = cls(**first)
